@@ -29,6 +29,48 @@ def rand_type(rng, depth=0, maxdepth=3, leaf_p=.45):
     return "(" + ",".join(rand_type(rng, depth + 1, maxdepth, leaf_p) for _ in range(n)) + ")"
 
 
+def boundary_shape(rng):
+    """Tuples built around the places where the codec's arithmetic changes regime: bool runs of 7/8/9/15/16/17/24 members next to
+    and between dynamic members, and static prefixes of exactly 254..258 bytes in front of a member (one-byte immediates)."""
+    DYN = ["string", "uint8[]", "bool[]", "uint16[]", "(uint8,string)"]
+    STA = ["uint8", "uint16", "uint64", "byte", "address", "byte[3]", "(uint8,uint16)"]
+    if rng.random() < .6:
+        parts = []
+        for seg in range(rng.choice([1, 2, 2, 3])):
+            if rng.random() < .8:
+                parts.append(rng.choice(DYN))
+            if rng.random() < .3:
+                parts.append(rng.choice(STA))
+            parts += ["bool"] * rng.choice([7, 8, 8, 9, 15, 16, 16, 17, 24])
+            if rng.random() < .3:
+                parts.append(rng.choice(STA))
+        if rng.random() < .8:
+            parts.append(rng.choice(DYN))
+        if rng.random() < .2:
+            parts += ["bool"] * rng.choice([1, 8])
+        return "(" + ",".join(parts) + ")"
+    # static prefix summing to a chosen size, then the member under test (and sometimes more)
+    target = rng.choice([254, 255, 255, 256, 256, 256, 257, 258, 511, 512])
+    parts, size = [], 0
+    unit = rng.choice([("byte[%d]", 1), ("uint64[%d]", 8), ("uint16[%d]", 2), ("address[%d]", 32)])
+    n = target // unit[1]
+    if rng.random() < .5 and n > 2:
+        k = rng.randrange(1, n)
+        parts += [unit[0] % k, unit[0] % (n - k)]
+    else:
+        parts.append(unit[0] % n)
+    size = n * unit[1]
+    while size < target:
+        step = 2 if target - size >= 2 and rng.random() < .5 else 1
+        parts.append("uint16" if step == 2 else rng.choice(["uint8", "byte"]))
+        size += step
+    rng.shuffle(parts)
+    tail = [rng.choice(["address", "byte[5]", "uint64", "uint16[2]", "(uint8,uint16)", "string", "bool", "uint8[]"])]
+    if rng.random() < .4:
+        tail.append(rng.choice(["uint8", "string", "bool"]))
+    return "(" + ",".join(parts + tail) + ")"
+
+
 def small_shapes(max_size):
     """All type strings with at most max_size constructor nodes (arrays of length 0..2 and dynamic, tuples)."""
     memo = {1: list(LEAVES)}
